@@ -4,6 +4,7 @@ package main
 // bytes/strings, sync primitives (sequential), errors.Is/As.
 
 import (
+	"crypto/sha256"
 	"fmt"
 	"go/types"
 	"strings"
@@ -228,10 +229,22 @@ func rtHash(ex *Exec, fr *frame, a []Value) Value {
 			allConc = false
 		}
 	}
-	_ = allConc
 	outs := make([]*Term, 32)
 	out := make(Array, 32)
+	var real [32]byte
+	if allConc {
+		buf := make([]byte, len(args))
+		for i, a := range args {
+			buf[i] = byte(a.c)
+		}
+		real = sha256.Sum256(buf)
+	}
 	for i := 0; i < 32; i++ {
+		if allConc {
+			outs[i] = ex.tb.Const(8, uint64(real[i]))
+			out[i] = ex.fromTerm(outs[i])
+			continue
+		}
 		name := fmt.Sprintf("H%d_%d", len(in), i)
 		var t *Term
 		if len(args) == 0 {
